@@ -288,9 +288,20 @@ Section AsmH.
     let u := nth (hunit_idx P) hunits one in
     outer fuel P solve powsf L (hdepth_raw P *. u) (nonlinear_scan P bound) 0.
 
-  (* HSolver::ChargeOnConductor; Depth is the member after AnalyzeProblem (planar: raw*units).
-     [hoc_elem] is the body of the element loop, Pv the indicator vector L.P *)
-  Definition hoc_elem (P : hprob) (Depth : F) (V Pv : list F) (Z : F) (el : eelem) : F :=
+  (* HSolver::ChargeOnConductor; Depth, extRo, extRi, extZo are the members after AnalyzeProblem
+     (raw*units; Depth only meaningful for planar problems).
+     [hoc_elem] is the body of the element loop, Pv the indicator vector L.P.
+     [extfix] selects the variant of the source: false = as shipped (elements of the
+     conformally mapped external region are integrated with the un-warped conductivity although
+     they were assembled with k/kludge), true = the repaired code (a/=kludge for such elements). *)
+  Definition ext_kludge (P : hprob) (extRo extRi extZo : F) (el : eelem) : F :=
+    let nd := fun j => nth (tri_get (ep el) j) (hnodes P) (dnode A) in
+    let r := (nx (nd 0) +. nx (nd 1) +. nx (nd 2)) /. #3 in
+    let z := (ny (nd 0) +. ny (nd 1) +. ny (nd 2)) /. #3 -. extZo in
+    (r *. r +. z *. z) /. (extRi *. extRo).
+
+  Definition hoc_elem (P : hprob) (extfix : bool) (extRo extRi extZo : F) (Depth : F) (V Pv : list F)
+    (Z : F) (el : eelem) : F :=
       let n := ep el in
       let nj := fun j => tri_get n j in
       if aeqb A (vget A Pv (nj 0)) zero && aeqb A (vget A Pv (nj 1)) zero && aeqb A (vget A Pv (nj 2)) zero
@@ -303,6 +314,8 @@ Section AsmH.
         let a := da /. #2 in
         let a := if haxi P then a *. (#2 *. api A *. (nx (nd 0) +. nx (nd 1) +. nx (nd 2)) /. #3)
                  else a *. Depth in
+        let a := if extfix && haxi P && nth (elbl el) (hlabel_ext P) false
+                 then a /. ext_kludge P extRo extRi extZo el else a in
         let blk := nth (eblk el) (hblocks P) dhblock in
         let '(kn, vx, vy, Dx, Dy) :=
           fold_left (fun acc k =>
@@ -322,6 +335,8 @@ Section AsmH.
                   | Some c => if Nat.eqb c cond then one else zero
                   | None => zero end) (hnodes P).
 
-  Definition heat_on_conductor (P : hprob) (Depth : F) (V : list F) (cond : nat) : F :=
-    fold_left (hoc_elem P Depth V (conductor_indicator P cond)) (helems P) zero.
+  Definition heat_on_conductor (P : hprob) (extfix : bool) (Depth : F) (V : list F) (cond : nat) : F :=
+    let u := nth (hunit_idx P) hunits one in
+    fold_left (hoc_elem P extfix (hextRo_raw P *. u) (hextRi_raw P *. u) (hextZo_raw P *. u) Depth V
+                        (conductor_indicator P cond)) (helems P) zero.
 End AsmH.
